@@ -101,6 +101,7 @@ def process_chunk(cases):
         first_diff = None
         oracle_fails = []
         oracle_errors = []
+        status_fail = False
         state_hash = hashlib.md5()
         for li, l in enumerate(case['lines']):
             io = impl_out[ci][li]
@@ -142,10 +143,21 @@ def process_chunk(cases):
                 same = True
             if not same and first_diff is None:
                 first_diff = dict(line=li, op=l, impl=io, model=mo)
+            if not same and not status_fail:
+                # (the first such event of the script, also when an observation differed before it)
+                status_fail = True
                 if io.startswith('crash:') and mo is not None and not mo.startswith('err') and mo != 'unmodelled':
                     # neither KeyError/ValueError nor a result: valid calls must succeed, invalid ones must be
                     # rejected with KeyError or ValueError
                     oracle_fails.append((li, l, 'FAIL the implementation raised %s where the model answers %s' % (io[6:], mo[:60])))
+                elif io in ('rej', 'rejK') and mo is not None and mo.startswith('ok'):
+                    # the model accepts exactly the in-contract calls (the rejection theorems of C05): a valid call
+                    # that raises has not had the effect / given the answer its property states
+                    oracle_fails.append((li, l, 'FAIL the implementation rejected (KeyError/ValueError) a call that is valid: the model answers %s' % mo[:60]))
+                elif io.startswith('ok') and mo == 'rej':
+                    oracle_fails.append((li, l, 'FAIL the implementation accepted a call that must be rejected with KeyError/ValueError: it answered %s' % io[:60]))
+                else:
+                    status_fail = False         # both answered: a difference in the answer, judged by the oracles
             # distinct non-trivial (state, op) pairs: an op that was rejected or changed the observed state
             state_hash.update(canon(io).encode())
             if op not in ('obs', 'alias', 'reset') and not op.startswith('q:') and op != 'dict':
@@ -236,11 +248,12 @@ def shrink(case, kind, budget=80, oracle=None):
         units.append(cur + pre)
     flat = lambda us: [l for u in us for l in u]
     n = 0
+    t_end = time.time() + 60          # a broken implementation may also be a slow one: shrinking is best effort
     gran = max(1, len(units) // 2)
-    while gran >= 1 and n < budget:
+    while gran >= 1 and n < budget and time.time() < t_end:
         i = 0
         changed = False
-        while i < len(units) and n < budget:
+        while i < len(units) and n < budget and time.time() < t_end:
             cand = units[:i] + units[i + gran:]
             n += 1
             if cand and still_fails(dict(case, lines=flat(cand)), kind, oracle):
